@@ -51,10 +51,12 @@ func (Driver) Batches(tier string) int {
 
 const (
 	markBase   = int64(200_000_000)
+	concBase   = int64(300_000_000)
 	corpusBase = int64(1_000_000_000)
 )
 
 func (Driver) Run(c *core.Ctx) {
+	hist = history{}
 	nv := int64(c.N(2500, 23438)) // x3 constraints: 40 k x 3 quick, 1.5 M x 3 thorough over all batches
 	nm := int64(c.N(300, 3000))
 	for i := int64(0); i < nv; i++ {
@@ -96,6 +98,11 @@ func (Driver) Run(c *core.Ctx) {
 			con = gen.DeriveConstraintBelowRoot(r, t, 50)
 		}
 		markedCase(c, idx, mv, con, how)
+	}
+	for k := int64(0); k < int64(c.N(2, 8)); k++ {
+		if c.Want(concBase + k) {
+			concurrentStage(c, concBase+k)
+		}
 	}
 	if c.Batch == 0 {
 		runCorpus(c, corpusBase)
@@ -281,7 +288,14 @@ func roundTrip(c *core.Ctx, idx int64, v cty.Value, con cty.Type) {
 		c.Violate("msgpack.Marshal", "error for an unmarked capsule-free value that conforms to the constraint", class+"/"+errClass(err), desc(), err.Error())
 		return
 	}
+	own := cloneBytes(bs)
+	hist.check(c, "marshal")
 	impliedTypeObservation(c, v, con, bs, desc)
+	if !heldAcrossLaterMarshal(c, idx, bs, own, class, desc) {
+		c.Distinct(desc(), false)
+		return
+	}
+	hist.retain(c, idx, bs, own, con, desc())
 
 	var got cty.Value
 	o = core.Guard(func() { got, err = msgpack.Unmarshal(bs, con) })
@@ -353,6 +367,7 @@ func markedCase(c *core.Ctx, idx int64, v cty.Value, con cty.Type, how string) {
 	var err error
 	o := core.Guard(func() { bs, err = msgpack.Marshal(v, con) })
 	c.Eval(1)
+	hist.check(c, "marshal(marked)")
 	c.Count("clause:marked-value-is-an-error")
 	c.Distinct(desc(), true)
 	switch {
